@@ -1,8 +1,463 @@
-//! C21 — not built yet.
+//! C21 — DSV rows and fields follow quote-aware splitting (DESIGN §4 C21).
+//! Library level only (the `succinctly jq --input-dsv` layer is added by the CLI driver).
 use crate::engine::*;
+use crate::gen::dsv::{self, Cfg, Model};
+use crate::props::c20::to_config;
+use serde_json::json;
+use succinctly::dsv::{Dsv, DsvRef};
 
-pub const RULE: &str = "not built";
+pub const RULE: &str = "C20's texts (structured rows with empty / plain / quoted fields holding delimiters, separators and doubled quotes / quotes in mid-field; soups; quote runs at chunk edges; 64..400-byte quoted regions; marker-free words; optional final separator, trailing delimiter at EOF, dangling open quote, blank rows) x configurations with distinct special bytes (standard, all pool triples, random). Oracle: harness splitter (quote byte toggles; separator outside quotes ends a row, a final separator starts no extra row; delimiter outside quotes ends a field; raw bytes). Checked: rows()->fields() = model; Dsv::row(n) for n in 0..rows+2 and usize::MAX, DsvRow::get(i) for i in 0..fields+2 and usize::MAX = iteration, None out of range; DsvRef = Dsv; DsvCursor goto_row/next_row/next_field/current_field/position/at_end walks and a random op history against the documented marker-stepping rule; index rank/select/counts = model positions; metamorphic: appending one separator to a non-empty, balanced text not ending in one changes nothing. Non-trivial: >=2 rows, a quoted field containing a delimiter or separator, and an empty field; distinct by hash(text,cfg).";
+
+pub const KNOWN_TRAILING: &str = "C21/trailing-delimiter-at-eof/last-empty-field-missing";
+
+type Rows<'a> = Vec<Vec<&'a [u8]>>;
+
+fn collect_rows<'a>(it: impl Iterator<Item = succinctly::dsv::DsvRow<'a>>, bound: usize) -> Result<Rows<'a>, &'static str> {
+    let mut out: Rows<'a> = vec![];
+    for row in it {
+        if out.len() > bound {
+            return Err("rows-iterator-does-not-terminate");
+        }
+        let mut f = vec![];
+        for field in row.fields() {
+            if f.len() > bound {
+                return Err("fields-iterator-does-not-terminate");
+            }
+            f.push(field);
+        }
+        out.push(f);
+    }
+    Ok(out)
+}
+
+fn show_rows(r: &Rows) -> serde_json::Value {
+    json!(r.iter().take(12).map(|row| row.iter().take(16).map(|f| show_bytes(f)).collect::<Vec<_>>()).collect::<Vec<_>>())
+}
+
+fn model_rows<'a>(text: &'a [u8], m: &Model) -> Rows<'a> {
+    m.rows.iter().map(|r| r.iter().map(|&(s, e)| &text[s..e]).collect()).collect()
+}
+
+/// `a` equals `b` except that the last row of `a` lacks the final field of `b`'s last row, which is empty.
+fn only_last_empty_field_missing(a: &Rows, b: &Rows) -> bool {
+    if a.len() != b.len() || b.is_empty() {
+        return false;
+    }
+    let n = b.len() - 1;
+    if a[..n] != b[..n] {
+        return false;
+    }
+    let (la, lb) = (&a[n], &b[n]);
+    lb.len() == la.len() + 1 && lb[lb.len() - 1].is_empty() && lb[..la.len()] == la[..]
+}
+
+fn diff_shape(a: &Rows, e: &Rows) -> &'static str {
+    if a.len() != e.len() {
+        return if a.len() < e.len() { "too-few-rows" } else { "too-many-rows" };
+    }
+    for (ra, re) in a.iter().zip(e.iter()) {
+        if ra.len() != re.len() {
+            return if ra.len() < re.len() { "too-few-fields-in-row" } else { "too-many-fields-in-row" };
+        }
+        if ra != re {
+            return "field-bytes-differ";
+        }
+    }
+    "equal"
+}
+
+pub fn check_case(text: &[u8], c: Cfg, u: &mut Src, st: &mut Stats) -> Result<(), Fail> {
+    let m = dsv::model(text, c);
+    let config = to_config(c);
+    let d = Dsv::parse_with_config(text, &config);
+    let len = text.len();
+    let bound = len + 2;
+    let info = || json!({"text_hex": hex(&text[..len.min(4096)]), "len": len, "text": show_bytes(text), "delimiter": c.delimiter, "quote": c.quote, "newline": c.newline});
+    let mut known_hit = false;
+
+    // ---- index = model positions (documented rank/select/count semantics)
+    let idx = d.index();
+    check_eq!("C21/index/marker_count", m.markers.len(), idx.marker_count(), {"case": info()});
+    check_eq!("C21/index/row_count=separators-outside-quotes", m.newlines.len(), d.row_count(), {"case": info()});
+    check_eq!("C21/index/row_count", m.newlines.len(), idx.row_count(), {"case": info()});
+    for k in 0..m.markers.len() + 3 {
+        check_eq!("C21/index/markers_select1", m.markers.get(k).copied(), idx.markers_select1(k), {"case": info(), "k": k});
+    }
+    for k in 0..m.newlines.len() + 3 {
+        check_eq!("C21/index/newlines_select1", m.newlines.get(k).copied(), idx.newlines_select1(k), {"case": info(), "k": k});
+    }
+    {
+        let (mut rm, mut rn) = (0usize, 0usize);
+        for i in 0..=len + 1 {
+            check_eq!("C21/index/markers_rank1", rm, idx.markers_rank1(i), {"case": info(), "i": i});
+            check_eq!("C21/index/newlines_rank1", rn, idx.newlines_rank1(i), {"case": info(), "i": i});
+            if m.markers.get(rm) == Some(&i) {
+                rm += 1;
+            }
+            if m.newlines.get(rn) == Some(&i) {
+                rn += 1;
+            }
+        }
+    }
+    st.evals((m.markers.len() + m.newlines.len() + 9 + 2 * (len + 2)) as u64);
+    check_eq!("C21/text-accessor", text, d.text(), {"case": info()});
+
+    // ---- iteration = model
+    let expect = model_rows(text, &m);
+    let iter = match collect_rows(d.rows(), bound) {
+        Ok(r) => r,
+        Err(e) => fail!(format!("C21/rows-vs-model/{}", e), {"case": info()}),
+    };
+    st.evals(1 + expect.iter().map(|r| r.len() as u64).sum::<u64>());
+    if iter != expect {
+        if m.ends_in_unquoted_delimiter && only_last_empty_field_missing(&iter, &expect) {
+            known_hit = true;
+        } else {
+            fail!(format!("C21/rows-vs-model/{}", diff_shape(&iter, &expect)), {"case": info(), "expected_rows": show_rows(&expect), "actual_rows": show_rows(&iter)});
+        }
+    }
+
+    // ---- borrowed view = owned view
+    {
+        let r = DsvRef::new(text, idx);
+        let via_ref = match collect_rows(r.rows(), bound) {
+            Ok(r) => r,
+            Err(e) => fail!(format!("C21/DsvRef/{}", e), {"case": info()}),
+        };
+        if via_ref != iter {
+            fail!("C21/DsvRef/rows-differ-from-Dsv", {"case": info(), "dsv": show_rows(&iter), "dsvref": show_rows(&via_ref)});
+        }
+        check_eq!("C21/DsvRef/row_count", d.row_count(), r.row_count(), {"case": info()});
+    }
+
+    // ---- random access = iteration
+    let nrows = iter.len();
+    let mut row_ns: Vec<usize> = if nrows <= 60 { (0..nrows + 2).collect() } else { (0..50).map(|_| u.range(0, nrows + 1)).chain([0, nrows - 1, nrows, nrows + 1]).collect() };
+    row_ns.extend([usize::MAX, usize::MAX - 1, 1 << 32]);
+    for &n in &row_ns {
+        let r = d.row(n);
+        st.evals(1);
+        match (r, iter.get(n)) {
+            (None, None) => {}
+            (Some(_), None) => fail!("C21/row(n)/some-out-of-range", {"case": info(), "n": n, "rows": nrows}),
+            (None, Some(_)) => fail!("C21/row(n)/none-in-range", {"case": info(), "n": n, "rows": nrows}),
+            (Some(row), Some(exp)) => {
+                let got: Vec<&[u8]> = row.fields().take(bound + 1).collect();
+                if &got != exp {
+                    fail!("C21/row(n)/fields-differ-from-iteration", {"case": info(), "n": n, "iteration": show_rows(&vec![exp.clone()]), "row_n": show_rows(&vec![got])});
+                }
+                let nf = exp.len();
+                let mut cols: Vec<usize> = if nf <= 40 { (0..nf + 2).collect() } else { (0..30).map(|_| u.range(0, nf + 1)).chain([0, nf - 1, nf, nf + 1]).collect() };
+                cols.extend([usize::MAX, 1 << 32]);
+                for &i in &cols {
+                    let g = row.get(i);
+                    let e = exp.get(i).copied();
+                    st.evals(1);
+                    if g != e {
+                        let shape = match (g, e) {
+                            (Some(_), None) => "some-out-of-range",
+                            (None, Some(_)) => "none-in-range",
+                            _ => "wrong-field",
+                        };
+                        fail!(format!("C21/get(i)/{}", shape), {"case": info(), "row": n, "column": i, "fields_in_row": nf, "expected": e.map(show_bytes), "actual": g.map(show_bytes)});
+                    }
+                }
+            }
+        }
+    }
+    // rows handed out by the iterator answer get(i) the same way
+    for (n, row) in d.rows().take(bound).enumerate() {
+        if n >= 8 {
+            break;
+        }
+        let exp = &iter[n];
+        for i in 0..(exp.len() + 2).min(12) {
+            let g = row.get(i);
+            if g != exp.get(i).copied() {
+                fail!("C21/iterated-row.get(i)/differs-from-iteration", {"case": info(), "row": n, "column": i});
+            }
+        }
+    }
+
+    // ---- cursor: documented stepping rule over the model's marker positions
+    let row_starts: Vec<usize> = m.rows.iter().map(|r| r[0].0).collect();
+    let field_at = |p: usize| -> &[u8] {
+        if p >= len {
+            return &[];
+        }
+        let k = m.markers.partition_point(|&x| x < p);
+        let end = m.markers.get(k).copied().unwrap_or(len);
+        &text[p..end]
+    };
+    {
+        let mut cur = d.cursor();
+        check_eq!("C21/cursor/initial-position", 0usize, cur.position(), {"case": info()});
+        check_eq!("C21/cursor/at_end", len == 0, cur.at_end(), {"case": info()});
+        for &n in &row_ns {
+            let ok = cur.goto_row(n);
+            st.evals(1);
+            check_eq!("C21/cursor/goto_row-result", n < row_starts.len(), ok, {"case": info(), "n": n, "rows": row_starts.len()});
+            if ok {
+                check_eq!("C21/cursor/goto_row-position", row_starts[n], cur.position(), {"case": info(), "n": n});
+                check_eq!("C21/cursor/current_field-after-goto_row", field_at(row_starts[n]), cur.current_field(), {"case": info(), "n": n});
+            }
+        }
+        // next_row walk
+        let mut cur = d.cursor();
+        if cur.goto_row(0) {
+            let mut k = 0usize;
+            loop {
+                check_eq!("C21/cursor/next_row-walk-position", row_starts.get(k).copied(), Some(cur.position()), {"case": info(), "row": k});
+                if !cur.next_row() {
+                    break;
+                }
+                k += 1;
+                if k > bound {
+                    fail!("C21/cursor/next_row-walk-does-not-terminate", {"case": info()});
+                }
+            }
+            check_eq!("C21/cursor/next_row-walk-count", row_starts.len(), k + 1, {"case": info()});
+            check_eq!("C21/cursor/at_end-after-last-next_row", true, cur.at_end(), {"case": info()});
+            check_eq!("C21/cursor/next_row-at-end", false, cur.next_row(), {"case": info()});
+        }
+        // next_field walk: every field of every row in order (the documented rule
+        // "false if at end of data" leaves a final empty field at EOF unvisited)
+        let mut cur = d.cursor();
+        let mut flat: Vec<&[u8]> = vec![];
+        if !cur.at_end() {
+            loop {
+                flat.push(cur.current_field());
+                if !cur.next_field() {
+                    break;
+                }
+                if flat.len() > bound {
+                    fail!("C21/cursor/next_field-walk-does-not-terminate", {"case": info()});
+                }
+            }
+            check_eq!("C21/cursor/at_end-after-last-next_field", true, cur.at_end(), {"case": info()});
+            check_eq!("C21/cursor/current_field-at-end", &[] as &[u8], cur.current_field(), {"case": info()});
+            check_eq!("C21/cursor/next_field-at-end", false, cur.next_field(), {"case": info()});
+        }
+        let mut flat_exp: Vec<&[u8]> = expect.iter().flatten().copied().collect();
+        st.evals(flat_exp.len() as u64 + 1);
+        if flat != flat_exp {
+            let mut tolerated = false;
+            if m.ends_in_unquoted_delimiter {
+                flat_exp.pop();
+                tolerated = flat == flat_exp;
+            }
+            if !tolerated {
+                fail!("C21/cursor/next_field-walk-differs-from-model", {"case": info(), "expected": show_rows(&vec![flat_exp]), "actual": show_rows(&vec![flat])});
+            }
+        }
+        // random op history against the stepping rule
+        let mut cur = d.cursor();
+        let mut p = 0usize;
+        let steps = if len == 0 { 3 } else { 24 };
+        for step in 0..steps {
+            let op = u.below(4);
+            let hist = |what: &str, p: usize| json!({"case": info(), "step": step, "op": what, "model_position": p});
+            match op {
+                0 => {
+                    let n = if u.ratio(1, 8) { row_starts.len() + u.below(3) } else { u.below(row_starts.len().max(1)) };
+                    let ok = cur.goto_row(n);
+                    check_eq!("C21/cursor/history/goto_row-result", n < row_starts.len(), ok, {"h": hist("goto_row", p), "n": n});
+                    if ok {
+                        p = row_starts[n];
+                    } else {
+                        // position after a failed goto_row is not documented: resynchronise
+                        p = cur.position().min(len);
+                        if cur.position() > len {
+                            fail!("C21/cursor/history/position-past-end", {"h": hist("goto_row", p), "n": n});
+                        }
+                        if p < len && p != 0 && !m.markers.contains(&(p - 1)) {
+                            fail!("C21/cursor/history/position-not-at-a-field-start", {"h": hist("goto_row", p), "n": n, "position": p});
+                        }
+                    }
+                }
+                1 | 2 => {
+                    let set = if op == 1 { &m.markers } else { &m.newlines };
+                    let (np, exp_ok) = if p >= len {
+                        (p, false)
+                    } else {
+                        let k = set.partition_point(|&x| x < p);
+                        match set.get(k) {
+                            Some(&mk) => (mk + 1, mk + 1 < len),
+                            None => (len, false),
+                        }
+                    };
+                    let ok = if op == 1 { cur.next_field() } else { cur.next_row() };
+                    let name = if op == 1 { "next_field" } else { "next_row" };
+                    check_eq!(format!("C21/cursor/history/{}-result", name), exp_ok, ok, {"h": hist(name, p)});
+                    p = np;
+                }
+                _ => {}
+            }
+            check_eq!("C21/cursor/history/position", p, cur.position(), {"h": hist("position", p)});
+            check_eq!("C21/cursor/history/at_end", p >= len, cur.at_end(), {"h": hist("at_end", p)});
+            check_eq!("C21/cursor/history/current_field", field_at(p), cur.current_field(), {"h": hist("current_field", p)});
+            st.evals(3);
+        }
+    }
+
+    // ---- metamorphic: appending one separator changes neither rows nor fields
+    if len > 0 && m.balanced && text[len - 1] != c.newline {
+        let mut t2 = text.to_vec();
+        t2.push(c.newline);
+        let d2 = Dsv::parse_with_config(&t2, &config);
+        let iter2 = match collect_rows(d2.rows(), bound + 1) {
+            Ok(r) => r,
+            Err(e) => fail!(format!("C21/append-separator/{}", e), {"case": info()}),
+        };
+        st.evals(1);
+        if iter2 != iter {
+            if m.ends_in_unquoted_delimiter && only_last_empty_field_missing(&iter, &iter2) {
+                known_hit = true;
+            } else {
+                fail!(format!("C21/append-separator/{}", diff_shape(&iter, &iter2)), {"case": info(), "rows_without": show_rows(&iter), "rows_with_separator_appended": show_rows(&iter2)});
+            }
+        }
+    }
+
+    if known_hit {
+        return Err(Fail::new(
+            KNOWN_TRAILING,
+            json!({"case": info(), "expected_rows": show_rows(&expect), "actual_rows": show_rows(&iter), "note": "text ends in a delimiter outside quotes with no final record separator; the only difference from the model (and from the same text with a separator appended) is the missing last empty field"}),
+        ));
+    }
+    Ok(())
+}
+
+fn classify(text: &[u8], c: Cfg, kind: dsv::TextKind, cfg_kind: &str, st: &mut Stats) {
+    let m = dsv::model(text, c);
+    let has_empty = m.rows.iter().flatten().any(|&(s, e)| s == e);
+    let quoted_with_special = m.rows.iter().flatten().any(|&(s, e)| {
+        let f = &text[s..e];
+        f.contains(&c.quote) && (f.contains(&c.delimiter) || f.contains(&c.newline))
+    });
+    let nt = m.rows.len() >= 2 && quoted_with_special && has_empty;
+    if nt {
+        st.nontrivial(mix64(hash_bytes(text) ^ ((c.delimiter as u64) << 16 | (c.quote as u64) << 8 | c.newline as u64)));
+    }
+    st.class_if(nt, "nontrivial");
+    st.class(&format!("text-{:?}", kind));
+    st.class(cfg_kind);
+    st.class_if(m.rows.is_empty(), "no-rows");
+    st.class_if(m.rows.len() >= 2, "rows>=2");
+    st.class_if(has_empty, "has-empty-field");
+    st.class_if(m.rows.iter().any(|r| r.len() >= 2 && r[r.len() - 1].0 == r[r.len() - 1].1), "empty-field-at-end-of-a-row");
+    st.class_if(m.rows.iter().any(|r| r.len() == 1 && r[0].0 == r[0].1), "blank-row");
+    st.class_if(quoted_with_special, "quoted-field-with-delimiter-or-separator");
+    st.class_if(!m.balanced, "unbalanced-quotes-at-eof");
+    st.class_if(m.ends_in_unquoted_newline, "final-separator");
+    st.class_if(!text.is_empty() && !m.ends_in_unquoted_newline, "no-final-separator");
+    st.class_if(m.ends_in_unquoted_delimiter, "trailing-delimiter-at-eof(known-finding shape)");
+    st.class_if(!text.is_empty() && m.balanced && text[text.len() - 1] != c.newline, "append-separator-relation-applies");
+    st.class_if(m.rows.iter().flatten().any(|&(s, e)| e - s >= 64), "field>=64-bytes");
+    st.class_if(c.newline != b'\n', "newline-not-LF");
+    st.class_if(c.quote != b'"', "quote-not-doublequote");
+    st.class_if(text.contains(&b'\r') && c.newline == b'\n' && c.delimiter != b'\r' && c.quote != b'\r', "CR-is-ordinary-data");
+    st.size(text.len());
+}
+
+fn replay_input(v: &serde_json::Value) -> Option<Fail> {
+    let t = unhex(v["input"]["text_hex"].as_str().unwrap_or(""));
+    let g = |k: &str| v["input"][k].as_u64().unwrap_or(0) as u8;
+    let c = Cfg { delimiter: g("delimiter"), quote: g("quote"), newline: g("newline") };
+    if c.delimiter == c.quote || c.quote == c.newline || c.delimiter == c.newline {
+        return Some(Fail::new("C21/replay/special-bytes-not-distinct", json!({})));
+    }
+    let mut st = Stats::default();
+    let ent = [0u8; 0];
+    let mut u = Src::new(&ent);
+    check_case(&t, c, &mut u, &mut st).err()
+}
 
 pub fn run(cx: &mut Ctx) {
-    cx.infra("check not built");
+    cx.assume("splitter model, marker positions and the cursor stepping rule are harness code written from the statement and the doc comments of src/dsv (quote byte toggles the in-quote flag; row_count is documented as the separator count)");
+    cx.assume("library level only; the sampled `succinctly jq --input-dsv` runs are a separate CLI layer");
+    cx.assume("DsvCursor::next_field is documented to return false at end of data, so a final empty field at EOF is not required of the raw cursor walk; it is required of rows()/fields() by the statement");
+
+    for (name, v) in cx.replays.clone() {
+        if v["kind"] == "input" {
+            let r = replay_input(&v);
+            cx.replay_outcome(&name, r);
+        }
+    }
+
+    cx.note("cases excluded for the known trailing-delimiter finding had every other assertion (index, random access, cursor, DsvRef, append-separator shape) evaluated first; only the missing last empty field is tolerated");
+    let max = if cx.tier == Tier::Quick { 1000 } else { 3000 };
+    cx.check(
+        "rows-fields-vs-model",
+        RULE,
+        Budget { quick: 400_000, thorough: 12_000_000, max_len: 9000 },
+        move |u, st| {
+            let (c, cfg_kind) = dsv::cfg(u);
+            let (t, kind) = dsv::text(u, c, max);
+            classify(&t, c, kind, cfg_kind, st);
+            st.sample(&format!("{:?}", kind), || json!({"len": t.len(), "cfg": [c.delimiter, c.quote, c.newline], "head": show_bytes(&t[..t.len().min(100)])}));
+            st.describe(|| json!({"text_hex": hex(&t), "text": show_bytes(&t), "delimiter": c.delimiter, "quote": c.quote, "newline": c.newline}));
+            check_case(&t, c, u, st)
+        },
+    );
+    for cl in [
+        "nontrivial",
+        "rows>=2",
+        "has-empty-field",
+        "empty-field-at-end-of-a-row",
+        "blank-row",
+        "quoted-field-with-delimiter-or-separator",
+        "unbalanced-quotes-at-eof",
+        "final-separator",
+        "no-final-separator",
+        "append-separator-relation-applies",
+        "field>=64-bytes",
+        "newline-not-LF",
+        "CR-is-ordinary-data",
+        "no-rows",
+    ] {
+        cx.require_class("rows-fields-vs-model", cl, 50);
+    }
+
+    // every text of length <= 7 over {d, q, n, a} (complete family, standard CSV) + length <= 5 for three more configurations
+    let listed = cx.is_known(KNOWN_TRAILING);
+    cx.exhaustive(
+        "all-short-texts",
+        "every text of length 0..=7 over the alphabet {delimiter, quote, separator, 'a'} for CSV, and of length 0..=5 for (TAB,',CR), (0xFF,0x00,0x80), (a,LF,\")",
+        true,
+        move |shard, nshards, st| {
+            let cfgs = [
+                (Cfg { delimiter: b',', quote: b'"', newline: b'\n' }, 7usize),
+                (Cfg { delimiter: b'\t', quote: b'\'', newline: b'\r' }, 5),
+                (Cfg { delimiter: 0xFF, quote: 0x00, newline: 0x80 }, 5),
+                (Cfg { delimiter: b'a', quote: b'\n', newline: b'"' }, 5),
+            ];
+            let ent = [0u8; 0];
+            let mut idx = 0usize;
+            for (c, maxlen) in cfgs {
+                let mut o = b'a';
+                while o == c.delimiter || o == c.quote || o == c.newline {
+                    o += 1;
+                }
+                let alpha = [c.delimiter, c.quote, c.newline, o];
+                for l in 0..=maxlen {
+                    for code in 0..(1usize << (2 * l)) {
+                        idx += 1;
+                        if idx % nshards != shard {
+                            continue;
+                        }
+                        let t: Vec<u8> = (0..l).map(|i| alpha[(code >> (2 * i)) & 3]).collect();
+                        let mut u = Src::new(&ent);
+                        st.cases += 1;
+                        match check_case(&t, c, &mut u, st) {
+                            Ok(()) => {}
+                            Err(f) if f.sig == KNOWN_TRAILING && listed => st.known_hit(KNOWN_TRAILING),
+                            Err(f) => return Err(f),
+                        }
+                    }
+                }
+            }
+            Ok(())
+        },
+    );
 }
